@@ -30,6 +30,7 @@ Inductive gclass :=
 | GReduceDefault           (* a reduction step through the "default" kernel (neither first nor last axis) with axis <> 1 and extent <> 2 *)
 | GFlatRawWindow           (* whole-tensor (all-axes) reduction over the raw storage window of a tensor whose window is not its logical content *)
 | GShapeMisfit             (* operands whose shapes do not fit the operation *)
+| GAliasedStorage          (* data is physically moved under other live tensors that view the same storage *)
 | GOther.
 
 Definition slice_count_zero (s : slice) (dim : Z) : bool :=
